@@ -19,6 +19,12 @@ def wire_pair(chunk=1024, blob_threshold_none=False):
                 self.down.max_buffer_size_before_frontal_cleanup = None
             router.register_client(self)
 
+        blob_policy = "Never"      # the library's control connection; a one-connection client that wants BLOBs sets "Also"
+
+        def blob_handshake(self, device):
+            import indi
+            self.send_message(indi.message.EnableBLOB(device=device, value=self.blob_policy))
+
         def send_message(self, msg):
             data = msg.to_string().decode("latin1")
             for i in range(0, len(data), chunk):
@@ -158,8 +164,8 @@ def blob_grid(w):
     probs, cases = [], 0
     for direction in ("down", "up"):
         for size in sizes + (big if direction == "down" else []):
-            for chunk in (1024, 97) + ((1,) if size <= 100 else ()):
-                for policy in ((None, "Never", "Also", "Only") if direction == "down" else ("Also",)):
+            for chunk in ((1024, 97) if size < 60000 else (1024,)) + ((1,) if size <= 100 else ()):
+                for policy in ((None, "Never", "Also", "Only") if (direction == "down" and size < 60000) else ("Also",)):
                     cases += 1
                     try:
                         received, same = _transfer(size, direction, chunk, policy, w.get("seed", 0))
@@ -294,12 +300,11 @@ def _history(seed, steps, chunk):
         devs.append(cls(router=r))
     WC = wire_pair(chunk, blob_threshold_none=True)
     net = WC(r)
+    net.blob_policy = "Also"
     snoop = devs[0].snooping_client if len(devs) > 1 else None
     clients = [("network", net, True)] + ([("snooping", snoop, False)] if snoop else [])
     log = []
     net.send_message(indi.message.GetProperties(version="1.7"))
-    for d in devs:
-        net.send_message(indi.message.EnableBLOB(device=d.name, value="Also"))
     if snoop:
         for d in devs[1:]:
             devs[0].snoop_device(d.name)
